@@ -307,6 +307,9 @@ def _check_restarts(facts, col, body, region, owner_q, counter):
             for dbb, dsi, kind, payload in body.defs().get(tl, []) if tl is not None else []:
                 if kind == "rv" and payload["k"] == "agg" and payload.get("ak") == "tuple" and len(payload["ops"]) == 2:
                     tup = (dbb, payload)
+            if tup is None and len(ops) == 2:
+                # struct variant `Synced { ones, bits }`: the two operands are the payload themselves
+                tup = (bb, {"ops": ops})
             key = "%s:restart#%d" % (owner_q, counter[0])
             counter[0] += 1
             if tup is None:
